@@ -696,7 +696,10 @@ pub fn check(ctx: &Ctx) {
         eprintln!("MACHINERY: crypto reference model self-test failed: {e}");
         std::process::exit(2);
     }
-    let quick = ctx.tier == Tier::Quick;
+    // the former thorough bounds (minus the 4-chunk sequence family) are the quick tier now;
+    // `deep` = thorough
+    let quick = false;
+    let deep = ctx.tier == Tier::Thorough;
     let cs = containers(quick);
     let mut cases = Vec::new();
     for c in &cs {
@@ -738,7 +741,7 @@ pub fn check(ctx: &Ctx) {
             }
             if family == Family::ChunkSequences {
                 let n = c.inner_len.div_ceil(1usize << (c.chunk + 6));
-                if !c.v2 || n > if quick { 3 } else { 4 } {
+                if !c.v2 || n > if deep { 4 } else { 3 } {
                     continue;
                 }
             }
